@@ -168,6 +168,64 @@ def body(run):
             if not same or not same_t:
                 run.add_violation('storing an input south-up changes the result', dict(desc, south_up=which), observed=dict(first_diff=d, transforms=[list(t2), list(t1)]),
                                   signature=dict(kind='south-up', which=which))
+    # ---- images in different coordinate systems with different units (metres vs degrees): "the coarser of the two" is about ground size,
+    #      which the reader establishes after bringing both images into one coordinate system
+    from rasterio.warp import transform_bounds
+    from rasterio.crs import CRS
+    wgs = CRS.from_epsg(4326)
+    for mi in range(run.scale(4, 24)):
+        fine_is_src = mi % 2 == 0
+        x0, y0 = 300000.0 + 1000 * rng.randint(0, 50), 6200000.0 + 1000 * rng.randint(0, 50)
+        fres = rng.choice([0.5, 1.0, 2.0])
+        fsh = (rng.randint(40, 64), rng.randint(40, 64))
+        ft = Affine(fres, 0, x0, 0, -fres, y0)
+        fb = (x0, y0 - fres * fsh[0], x0 + fres * fsh[1], y0)                      # left, bottom, right, top of the fine (UTM) image
+        w, s_, e, n = transform_bounds(synth.UTM, wgs, *fb)
+        cres = fres * rng.choice([5, 8]) / 111000.0                                # coarse pixel in degrees: 5 - 8 fine pixels on the ground
+        if fine_is_src:      # coarse geographic reference around the fine projected source
+            cw, cn = w - 4 * cres, n + 4 * cres
+            csh = (int((cn - s_) / cres) + 5, int((e - cw) / cres) + 5)
+        else:                # coarse geographic source inside the fine projected reference
+            cw, cn = w + 3 * cres, n - 3 * cres
+            csh = (max(4, int((cn - s_) / cres) - 3), max(4, int((e - cw) / cres) - 3))
+        ct = Affine(cres, 0, cw, 0, -cres, cn)
+        fine_arr = fz.texture(rng, fsh, 1)
+        coarse_arr = fz.texture(rng, csh, 1, lo=30, hi=180)
+        sfn, rfn = run.work / 'x_src.tif', run.work / 'x_ref.tif'
+        if fine_is_src:
+            synth.write_tif(sfn, fine_arr, ft)
+            synth.write_tif(rfn, coarse_arr, ct, crs=wgs)
+        else:
+            synth.write_tif(sfn, coarse_arr, ct, crs=wgs)
+            synth.write_tif(rfn, fine_arr, ft)
+        desc = dict(mixed_crs=True, source=('UTM %g m' % fres) if fine_is_src else ('WGS84 %.3g deg' % cres),
+                    reference=('WGS84 %.3g deg' % cres) if fine_is_src else ('UTM %g m' % fres), requested_proc_crs='auto')
+        want = 'ref' if fine_is_src else 'src'
+        run.count_case(('mixed', mi), True, desc if mi < 1 else None)
+        dist['mixed-crs/' + want] = dist.get('mixed-crs/' + want, 0) + 1
+        try:
+            res = fz.fuse(sfn, rfn, run.work / 'x_out.tif', model='gain', kernel_shape=(3, 3), proc_crs='auto', max_block_mem=1e6, threads=1)
+        except Exception as ex:
+            if type(ex).__name__ in ('ImageContentError', 'BlockSizeError'):
+                dist['mixed-crs/skipped:' + type(ex).__name__] = dist.get('mixed-crs/skipped:' + type(ex).__name__, 0) + 1
+                continue
+            raise
+        problems = {}
+        if res['proc_crs'] != want:
+            problems['auto did not resolve to the coarser image'] = dict(got=res['proc_crs'], expected=want)
+        with rio.open(sfn) as s_ds:
+            if (res['corr']['crs'], res['corr']['shape']) != (s_ds.crs, s_ds.shape) or \
+                    any(abs(a - b) > 1e-9 * max(1.0, abs(b)) for a, b in zip(tuple(res['corr']['transform'])[:6], tuple(s_ds.transform)[:6])):
+                problems['corrected image is not on the source grid'] = dict(crs=str(res['corr']['crs']), shape=res['corr']['shape'],
+                                                                            transform=list(res['corr']['transform'])[:6])
+        if res['corr']['tags'].get('FUSE_PROC_CRS') != want or res['param']['tags'].get('FUSE_PROC_CRS') != want:
+            problems['recorded processing grid'] = res['corr']['tags'].get('FUSE_PROC_CRS')
+        if problems:
+            # known finding D18: different CRSs and the SOURCE is the processing grid - the reader warps the source into the reference's CRS
+            # and the corrected image is written on that warped grid
+            d18 = (not fine_is_src) and sorted(problems) == ['corrected image is not on the source grid'] and res['proc_crs'] == 'src'
+            run.add_violation('outputs are misplaced, mis-ordered or do not describe themselves', desc, observed=problems,
+                              signature=dict(kind='outputs', parts=sorted(problems), cause='mixed-crs-source-is-processing-grid' if d18 else 'other'))
     # D7: colour-interpretation matching (BGR source, RGB reference, no wavelength tags) is not recorded in the corrected image
     g, pair, mbm, nblk = fz.workable_pair(run.work, rng, lambda r: synth.aligned_geom(r, 24), (3, 3), 1, tag='d7', bands=1)
     src3 = np.repeat(pair['src'], 3, axis=0)
